@@ -11,8 +11,8 @@ out += ["//@ func (*Entry).SetValueStringer", "//@   props C10", "//@   requires
         "//@   ensures [C10.set] s.valueStringer == vs", "//@   ensures [C10.ret] result == s", ""]
 out += ["//@ func (*Entry).SetSkip", "//@   props C10", "//@   requires s != nil", "//@   assigns s.extraFrames",
         "//@   ensures [C10.set] s.extraFrames == extraFrames", ""]
-out += ["//@ func (*Entry).withSkip", "//@   props C10", "//@   requires s != nil", "//@   assigns s.extraFrames",
-        "//@   ensures [C10.set] s.extraFrames == extraFrames", "//@   ensures [C10.ret] result == s", ""]
+out += ["//@ func (*Entry).withSkip", "//@   props C10 C14", "//@   requires s != nil", "//@   assigns s.extraFrames",
+        "//@   ensures [C10.C14.set] s.extraFrames == extraFrames", "//@   ensures [C10.ret] result == s", ""]
 out += ["//@ func (*Entry).ResetContextKeys", "//@   props C10", "//@   requires s != nil", "//@   assigns s.contextKeys",
         "//@   ensures [C10.set] len(s.contextKeys) == 0", "//@   ensures [C10.ret] result == s", ""]
 # appending setters: the receiver's own list grows (into its own spare capacity or a fresh array)
